@@ -18,7 +18,7 @@ var (
 	// inbox C17-17-tolocalestring-detach-typeerror.md: %TypedArray%.prototype.toLocaleString throws TypeError when an element's
 	// toLocaleString detaches the buffer (spec: the remaining elements are undefined -> empty strings). While open, that TypeError is
 	// accepted for the "tls" op (memory-safety monitors stay armed). Set to false once merged.
-	tolerateToLocaleDetachTypeError = true
+	tolerateToLocaleDetachTypeError = false
 )
 
 type gen struct {
